@@ -347,3 +347,150 @@ func calleeName(cc *ssa.CallCommon) string {
 	}
 	return "dynamic(" + cc.Value.Type().String() + ")"
 }
+
+// addrIsRead: the address value v (a FieldAddr or something derived from it)
+// is used for anything other than being stored through.
+func addrIsRead(v ssa.Value, depth int) bool {
+	refs := v.Referrers()
+	if refs == nil || depth > 4 {
+		return true
+	}
+	for _, r := range *refs {
+		switch x := r.(type) {
+		case *ssa.Store:
+			if x.Addr == v {
+				continue
+			}
+			return true // the address itself is stored somewhere
+		case *ssa.IndexAddr:
+			if x.X == v && addrIsRead(x, depth+1) {
+				return true
+			}
+		case *ssa.FieldAddr:
+			if x.X == v && addrIsRead(x, depth+1) {
+				return true
+			}
+		case *ssa.DebugRef:
+			continue
+		default:
+			return true
+		}
+	}
+	return false
+}
+
+type readSite struct {
+	fn *ssa.Function
+	in ssa.Instruction
+}
+
+// fieldReads enumerates reads of fld over the zygo package, skipping the
+// functions in `except`.
+func (c *Ctx) fieldReads(fld *types.Var, except map[*ssa.Function]bool) []readSite {
+	var out []readSite
+	for _, f := range c.zygoFuncs() {
+		if except[f] {
+			continue
+		}
+		eachInstr(f, func(b *ssa.BasicBlock, i int, in ssa.Instruction) {
+			switch x := in.(type) {
+			case *ssa.FieldAddr:
+				if faField(x) == fld && addrIsRead(x, 0) {
+					out = append(out, readSite{f, in})
+				}
+			case *ssa.Field:
+				if fField(x) == fld {
+					out = append(out, readSite{f, in})
+				}
+			}
+		})
+	}
+	return out
+}
+
+// methodCallsOnField lists calls in f whose receiver (first argument or invoke
+// value) is a load of field fld; returns callee names.
+func methodCallsOnField(f *ssa.Function, fld *types.Var) []ssa.CallInstruction {
+	var out []ssa.CallInstruction
+	eachInstr(f, func(b *ssa.BasicBlock, i int, in ssa.Instruction) {
+		ci, ok := in.(ssa.CallInstruction)
+		if !ok {
+			return
+		}
+		cc := ci.Common()
+		var recv ssa.Value
+		if cc.IsInvoke() {
+			recv = cc.Value
+		} else if cc.StaticCallee() != nil && cc.StaticCallee().Signature.Recv() != nil && len(cc.Args) > 0 {
+			recv = cc.Args[0]
+		}
+		if recv == nil {
+			return
+		}
+		if _, ok := loadOfField(recv, fld); ok {
+			out = append(out, ci)
+		}
+	})
+	return out
+}
+
+func isMethodOf(f *ssa.Function, named *types.Named) bool {
+	for f.Parent() != nil {
+		f = f.Parent()
+	}
+	recv := f.Signature.Recv()
+	if recv == nil {
+		return false
+	}
+	t := recv.Type()
+	if p, ok := t.(*types.Pointer); ok {
+		t = p.Elem()
+	}
+	return types.Identical(t, named)
+}
+
+// structFields lists the fields of a named struct type.
+func structFields(n *types.Named) []*types.Var {
+	st, ok := n.Underlying().(*types.Struct)
+	if !ok {
+		return nil
+	}
+	var out []*types.Var
+	for i := 0; i < st.NumFields(); i++ {
+		out = append(out, st.Field(i))
+	}
+	return out
+}
+
+// constIntOf returns the constant integer value of v if it is one.
+func constIntOf(v ssa.Value) (int64, bool) {
+	k, ok := v.(*ssa.Const)
+	if !ok || k.Value == nil {
+		return 0, false
+	}
+	if k.Value.Kind() != 3 { // constant.Int
+		return 0, false
+	}
+	return k.Int64(), true
+}
+
+// staticReach: functions reachable from f through static calls only (within the zygo package).
+func staticReach(f *ssa.Function) map[*ssa.Function]bool {
+	seen := map[*ssa.Function]bool{f: true}
+	work := []*ssa.Function{f}
+	for len(work) > 0 {
+		x := work[len(work)-1]
+		work = work[:len(work)-1]
+		for _, g := range withClosures(x) {
+			eachInstr(g, func(b *ssa.BasicBlock, i int, in ssa.Instruction) {
+				if ci, ok := in.(ssa.CallInstruction); ok {
+					if callee := ci.Common().StaticCallee(); callee != nil && fnPkgPath(callee) == zygoPath && !seen[callee] {
+						seen[callee] = true
+						work = append(work, callee)
+					}
+				}
+			})
+		}
+	}
+	return seen
+}
